@@ -85,6 +85,13 @@ func c07KeyFromVal(q Val) (cid.Cid, []byte) {
 
 // c07RunImpl opens the archive and answers the queries with the real library.
 func c07RunImpl(c *Ctx, front uint64, o c07Opts, file []byte, supplied Val, queries VL, backing int) Val {
+	if front == 2 { // both front-ends on the same file (the storage one has no index parameter)
+		b2 := backing
+		if b2 == 3 {
+			b2 = 2
+		}
+		return VL{VT("both"), c07RunImpl(c, 0, o, file, supplied, queries, backing), c07RunImpl(c, 1, o, file, VT("none"), queries, b2)}
+	}
 	ctx := context.Background()
 	var sidx index.Index
 	if l, ok := supplied.(VL); ok && len(l) == 3 {
